@@ -15,6 +15,8 @@ def _freeze(x):
     """comparable deep image of an argument object (ndarray, DimArray, Axis, Axes, list, dict, scalar)"""
     if isinstance(x, np.ndarray):
         return ("nd", str(x.dtype), x.shape, repr(x.tolist()))
+    if isinstance(x, dict) and hasattr(x, "axes"):      # a Dataset
+        return ("ds", tuple((repr(k), _freeze(v)) for k, v in x.items()), tuple(_freeze(ax) for ax in x.axes), repr(sorted(dict(x.attrs).items(), key=str)))
     if hasattr(x, "axes") and hasattr(x, "values") and hasattr(x, "dims"):
         return ("da", _freeze(np.asarray(x.values)), tuple(x.dims), tuple(_freeze(ax) for ax in x.axes), repr(sorted(dict(x.attrs).items(), key=str)))
     if hasattr(x, "values") and hasattr(x, "name"):
@@ -67,6 +69,19 @@ def _mask_first(c):
     m = np.zeros(c.a.shape[0], dtype=bool)
     m[c.k % c.a.shape[0]] = True
     return m
+
+
+def _ds_with_lacking(c):
+    """dataset-wide along-axis operations (axis by default, by position, by name) on a dataset one of whose variables lacks the
+    axis and is as long as the new label list"""
+    lack = c.arg(c.da.DimArray(np.array([1.5, 2.5]), axes=[c.da.Axis(np.array(["u", "v"], dtype=object), "zzlack")]))
+    ds = c.da.Dataset()
+    ds["a"] = c.a
+    ds["lack"] = lack
+    c.arg(ds)
+    new = [c.lab(0), c.a.labels[0].max() + 50]
+    return (ds.reindex_axis(new), ds.reindex_axis(list(new), axis=0), ds.reindex_axis(list(new), axis=c.first), ds.take_axis([0, 0], axis=0, indexing="position"),
+            ds.sort_axis(0), ds.interp_axis([float(c.a.labels[0].min()), float(c.a.labels[0].max()) + 1.0], axis=0), ds.mean(axis=0))
 
 
 CATALOGUE = [
@@ -153,8 +168,9 @@ CATALOGUE = [
     ("diff centered", "keeps", None, lambda c: c.a.diff(axis=0, scheme="centered")),
     ("diff n=2", "keeps", None, lambda c: c.a.diff(axis=c.a.dims[c.axk()], n=2)),
     ("argmin", None, None, lambda c: c.a.argmin()),
-    ("argmax axis", None, None, lambda c: c.a.argmax(axis=c.axk())),
-    ("argmin skipna", None, None, lambda c: c.a.argmin(axis=0, skipna=True)),
+    ("argmax axis", "keeps", None, lambda c: c.a.argmax(axis=c.axk())),
+    ("argmin axis name", "keeps", None, lambda c: c.a.argmin(axis=c.a.dims[c.axk()])),
+    ("argmin skipna", "keeps", None, lambda c: c.a.argmin(axis=0, skipna=True)),
     # ---- reshaping ----------------------------------------------------------------------------------------------
     ("transpose", "keeps", lambda c: list(c.a.dims), lambda c: c.a.transpose(*c.a.dims[::-1])),
     ("T", "keeps", None, lambda c: c.a.T if c.a.ndim == 2 else c.a.ix[0].T if c.a.ndim == 3 else c.a.T),
@@ -239,6 +255,7 @@ CATALOGUE = [
     ("Dataset ops", None, None, lambda c: (lambda ds: (ds.mean(axis=c.first), ds.take(indices=c.lab(0), axis=c.first), ds.sort_axis(c.first), ds + 1, 2 - ds,
                                                        ds.take_axis([0], axis=c.first, indexing="position"), ds.reindex_axis([c.lab(0), 99], axis=c.first),
                                                        ds.interp_axis(_interp_pts(c), axis=c.first), ds.copy(), ds.to_array(axis="vv", keys=list(ds.keys()))))(c.da.Dataset(a=c.a))),
+    ("Dataset ops, a variable lacks the axis", None, None, _ds_with_lacking),
     ("Dataset rename copies", None, None, lambda c: (lambda ds: (ds.rename_axes({c.first: "renamed"}, inplace=False), ds.set_axis(name="renamed2", axis=c.first, inplace=False),
                                                                  ds.rename_keys({"a": "z"}, inplace=False)))(c.da.Dataset(a=c.a))),
     ("Dataset rename in place", None, None, lambda c: (lambda ds: (ds.rename_axes({c.first: "renamed"}), ds.set_axis(np.arange(c.a.shape[0]), axis=0),
